@@ -99,7 +99,7 @@ Proof.
     split; [unfold idle, pop_frame; simpl; rewrite <- H1; simpl; spl; auto; congruence|].
     split; [|auto]. intros m Hm. assert (Hm1 : mem_key m (arrs st1) = true) by (rewrite Ear1; exact Hm). exact (Rel_keeps _ _ _ R' m Hm1).
   - pose proof (set_array_good c st1 n i G1 J1) as H. rewrite Ear1 in H. specialize (H (Harr n i eq_refl)).
-    destruct (set_array c st1 n i) as [s r]. destruct H as (G' & J' & _ & _ & Hst & Htv & _ & _ & Hac & Hk).
+    destruct (set_array c st1 n i) as [s r]. destruct H as (G' & J' & _ & _ & Hst & Htv & _ & _ & Hac & Hk & _).
     unfold EVI. split; [apply pop_frame_good, G'|]. split; [exact J'|].
     split; [unfold idle, pop_frame; simpl; rewrite Hst, Es1, Htv, Et1, Hac, Ea1; auto|].
     split; [|auto]. intros m Hm. assert (Hm1 : mem_key m (arrs st1) = true) by (rewrite Ear1; exact Hm). exact (Hk m Hm1).
@@ -213,9 +213,9 @@ Proof.
 Qed.
 
 (* ---------- ERASE, DIM, CLEAR, DEF FN ---------- *)
-Lemma clear_all_good_any st : stack st = [] -> active st = [] -> Good c (clear_all st) /\ idle (clear_all st).
+Lemma clear_all_good_any st : code_start c <= var_start c -> stack st = [] -> active st = [] -> Good c (clear_all st) /\ idle (clear_all st).
 Proof.
-  intros Hs Ha. split; [|unfold idle, clear_all; simpl; auto].
+  intros Hcfg Hs Ha. split; [|unfold idle, clear_all; simpl; auto].
   constructor; unfold clear_all; simpl.
   - unfold top. simpl. reflexivity.
   - split; [lia|]. split; [lia|]. left; reflexivity.
@@ -229,6 +229,7 @@ Proof.
   - reflexivity.
   - rewrite Hs. intros fr o [].
   - intros o [].
+  - exact Hcfg.
 Qed.
 
 Lemma Good_set_fns st x : Good c st -> Good c (set_fns st x).
@@ -405,8 +406,8 @@ Proof.
     + destruct (reset_temporaries_good c st G (conj Hst (conj Htv Hac))) as (G1 & _ & I1 & _).
       destruct (var_start c + 514 + k <=? 0); [simpl; split; assumption|].
       destruct (totmem (reset_temporaries st) <? var_start c + 514 + k); [simpl; split; assumption|].
-      simpl. destruct I1 as (a1 & a2 & a3). apply clear_all_good_any; simpl; assumption.
-    + simpl. apply clear_all_good_any; assumption.
+      simpl. destruct I1 as (a1 & a2 & a3). apply clear_all_good_any; simpl; try assumption. exact (g_cfg _ _ G).
+    + simpl. apply clear_all_good_any; try assumption. exact (g_cfg _ _ G).
   - (* DEF FN *)
     cbn [exec]. destruct d; [simpl; split; assumption|].
     assert (G1 : Good c (set_fns st (upsert f (params, body) (fns st)))) by (apply Good_set_fns, G).
